@@ -84,7 +84,7 @@ func c31Mirrored(a, b *nsNode) bool {
 
 func TestC31_Converge(t *testing.T) {
 	nsSetT(t)
-	vk.Check(t, 120, func(rt *rapid.T) {
+	vk.Check(t, 600, func(rt *rapid.T) {
 		nsBubble(rt, func(rt *rapid.T, s *nsSim) {
 			w := nsGenWorld(rt, s, nsWorldOpts{minHosts: 2, maxHosts: 2, staticAll: true, v6: true})
 			w.pid = "C31"
